@@ -10,6 +10,8 @@ import (
 	bls12381 "github.com/consensys/gnark-crypto/ecc/bls12-381"
 	bn254 "github.com/consensys/gnark-crypto/ecc/bn254"
 	tedwards "github.com/consensys/gnark-crypto/ecc/twistededwards"
+	gchash "github.com/consensys/gnark-crypto/hash"
+	eddsacrypto "github.com/consensys/gnark-crypto/signature/eddsa"
 	"github.com/consensys/gnark/constraint/solver"
 	"github.com/consensys/gnark/frontend"
 	"github.com/consensys/gnark/std/algebra/algopts"
@@ -19,8 +21,10 @@ import (
 	"github.com/consensys/gnark/std/algebra/native/sw_bls12377"
 	"github.com/consensys/gnark/std/algebra/native/twistededwards"
 	"github.com/consensys/gnark/std/evmprecompiles"
+	mimcgadget "github.com/consensys/gnark/std/hash/mimc"
 	"github.com/consensys/gnark/std/math/emulated"
 	"github.com/consensys/gnark/std/signature/ecdsa"
+	eddsagadget "github.com/consensys/gnark/std/signature/eddsa"
 	"verifsim/simrt"
 )
 
@@ -836,6 +840,127 @@ func pairEmu381Case(finalExp bool) *gcase {
 	}
 }
 
+// ---- EVM pairing precompile (BN254): fixed circuits MillerLoopAndMul + MillerLoopAndFinalExpCheck
+
+type ecpairCircuit struct {
+	P [2]sw_bn254.G1Affine
+	Q [2]sw_bn254.G2Affine
+}
+
+func (c *ecpairCircuit) Define(api frontend.API) error {
+	evmprecompiles.ECPair(api, []*sw_bn254.G1Affine{&c.P[0], &c.P[1]}, []*sw_bn254.G2Affine{&c.Q[0], &c.Q[1]})
+	return nil
+}
+
+func ecpairCase() *gcase {
+	mk := func() *ecpairCircuit { return &ecpairCircuit{} }
+	r := ecc.BN254.ScalarField()
+	return &gcase{
+		Name: "evm/ecpair", Circuit: mk(), EngineOnly: true, MaxFaults: 3, Focus: focusCurveHints, FocusOnly: true, Combo: true,
+		Assign: func(tape *simrt.Tape, q *big.Int) (frontend.Circuit, bool, func(map[int][]*big.Int) string, string) {
+			_, _, g1, g2 := bn254.Generators()
+			a, b := drawScalar(tape, r, false), drawScalar(tape, r, false)
+			ab := new(big.Int).Mul(a, b)
+			ab.Mod(ab, r)
+			kind := tape.Choose(simrt.SWorkload, 3)
+			if kind == 1 {
+				ab.Add(ab, big.NewInt(1))
+			}
+			var P0, P1 bn254.G1Affine
+			var Q0 bn254.G2Affine
+			P0.ScalarMultiplication(&g1, a)
+			Q0.ScalarMultiplication(&g2, b)
+			P1.ScalarMultiplication(&g1, ab)
+			P1.Neg(&P1)
+			if kind == 2 {
+				Q0.ScalarMultiplication(&g2, new(big.Int).Add(b, big.NewInt(1)))
+			}
+			ok, err := bn254.PairingCheck([]bn254.G1Affine{P0, P1}, []bn254.G2Affine{Q0, g2})
+			sat := err == nil && ok
+			c := mk()
+			c.P[0], c.P[1] = sw_bn254.NewG1Affine(P0), sw_bn254.NewG1Affine(P1)
+			c.Q[0], c.Q[1] = sw_bn254.NewG2Affine(Q0), sw_bn254.NewG2Affine(g2)
+			return c, sat, func(map[int][]*big.Int) string { return "" }, fmt.Sprintf("kind=%d holds=%v a=%s b=%s", kind, sat, a.Text(16), b.Text(16))
+		},
+	}
+}
+
+// ---- EdDSA over the native twisted Edwards curve (no hint below it since the generic ladder:
+// the honest verdict against gnark-crypto is the whole check) --------------------------------
+
+type eddsaCircuit struct {
+	Pub eddsagadget.PublicKey
+	Sig eddsagadget.Signature
+	Msg frontend.Variable
+}
+
+func (c *eddsaCircuit) Define(api frontend.API) error {
+	cv, err := twistededwards.NewEdCurve(api, tedwards.BN254)
+	if err != nil {
+		return err
+	}
+	h, err := mimcgadget.NewMiMC(api)
+	if err != nil {
+		return err
+	}
+	return eddsagadget.Verify(cv, c.Sig, c.Msg, c.Pub, &h)
+}
+
+type tapeReader struct{ tape *simrt.Tape }
+
+func (r tapeReader) Read(p []byte) (int, error) {
+	for i := range p {
+		p[i] = byte(r.tape.Raw(simrt.SWorkload))
+	}
+	return len(p), nil
+}
+
+func eddsaCase() *gcase {
+	mk := func() *eddsaCircuit { return &eddsaCircuit{} }
+	f := sField{Name: "bn254", Q: ecc.BN254.ScalarField(), Curve: ecc.BN254}
+	return &gcase{
+		Name: "eddsa/bn254", Circuit: mk(), MaxFaults: 4, Focus: focusCurveHints, FocusOnly: true, Field: &f,
+		Assign: func(tape *simrt.Tape, q *big.Int) (frontend.Circuit, bool, func(map[int][]*big.Int) string, string) {
+			priv, err := eddsacrypto.New(tedwards.BN254, tapeReader{tape})
+			if err != nil {
+				panic(err)
+			}
+			other, _ := eddsacrypto.New(tedwards.BN254, tapeReader{tape})
+			msg := drawValue(tape, q)
+			pad := func(m *big.Int) []byte {
+				b := make([]byte, len(q.Bytes()))
+				m.FillBytes(b)
+				return b
+			}
+			sig, err := priv.Sign(pad(msg), gchash.MIMC_BN254.New())
+			if err != nil {
+				panic(err)
+			}
+			pub := priv.Public()
+			kind := tape.Choose(simrt.SWorkload, 5)
+			vmsg := new(big.Int).Set(msg)
+			switch kind {
+			case 1:
+				vmsg.Add(vmsg, big.NewInt(1)).Mod(vmsg, q)
+			case 2:
+				pub = other.Public()
+			case 3: // the signature of another message
+				sig, _ = priv.Sign(pad(new(big.Int).Add(msg, big.NewInt(7))), gchash.MIMC_BN254.New())
+			case 4: // S altered in its last byte
+				sig = append([]byte{}, sig...)
+				sig[len(sig)-1] ^= 1
+			}
+			ok, verr := pub.Verify(sig, pad(vmsg), gchash.MIMC_BN254.New())
+			sat := verr == nil && ok
+			c := mk()
+			c.Msg = vmsg
+			c.Pub.Assign(tedwards.BN254, pub.Bytes())
+			c.Sig.Assign(tedwards.BN254, sig)
+			return c, sat, func(map[int][]*big.Int) string { return "" }, fmt.Sprintf("kind=%d valid=%v msg=%s", kind, sat, msg.Text(16))
+		},
+	}
+}
+
 // ---- element-level strategy for emulated hints ---------------------------------------------
 
 // emuLayout recognises the wrapper format of emulated hints (std/math/emulated/field_hint.go):
@@ -935,7 +1060,7 @@ var c16Cases = func() []*gcase {
 		teCase(tedwards.BLS12_381, "jubjub", ecc.BLS12_381, "mul"), teCase(tedwards.BLS12_381_BANDERSNATCH, "bandersnatch", ecc.BLS12_381, "mul"),
 		teCase(tedwards.BLS12_377, "bls12377", ecc.BLS12_377, "mul"), teCase(tedwards.BW6_761, "bw6761", ecc.BW6_761, "mul"),
 		g1NativeCase("mul", false), g1NativeCase("mul", true), g1NativeCase("mulbase", false),
-		pairNativeCase(false), pairEmuCase(false), pairEmuCase(true), pairEmu381Case(false), pairEmu381Case(true),
+		ecpairCase(), eddsaCase(), pairNativeCase(false), pairEmuCase(false), pairEmuCase(true), pairEmu381Case(false), pairEmu381Case(true),
 	}
 	return out
 }()
